@@ -28,6 +28,27 @@ Definition masks_okb (n n_trees : nat) (s : option (list (list bool))) : bool :=
   | Some masks => (length masks =? n_trees) && forallb (fun m => length m =? n) masks
   end.
 
+(* the out-of-bag theorems (C06_oob_classifier / C06_oob_regressor) evaluated on a forest state: the
+   out-of-bag prediction of training row i is the ordinary forest prediction of the sub-forest
+   `oob_members trees masks i` (implied by masks_okb, ProofsAgg.cf_oob_is_subforest /
+   rf_oob_is_subforest; evaluated so that `oob_members` itself runs on the implementation's masks) *)
+Definition oob_sub_cls_okb (f : cforest float) (x : list (list float)) : bool :=
+  match cf_samples f with
+  | None => true
+  | Some masks =>
+      forallb (fun i => option_eqb Nat.eqb
+                          (cf_predict_for_row FOps (mkCF (oob_members (cf_trees f) masks i) (cf_classes f) None) (nth i x []))
+                          (cf_predict_for_row_oob FOps f masks (nth i x []) i)) (seq 0 (length x))
+  end.
+Definition oob_sub_reg_okb (f : rforest float) (x : list (list float)) : bool :=
+  match rf_samples f with
+  | None => true
+  | Some masks =>
+      forallb (fun i => option_eqb feq
+                          (rf_predict_for_row FOps (mkRF (oob_members (rf_trees f) masks i) None) (nth i x []))
+                          (rf_predict_for_row_oob FOps f masks (nth i x []) i)) (seq 0 (length x))
+  end.
+
 (* ---- bootstrap sampling on the recorded draws; stratification of the implementation's counts ---- *)
 Definition class_total (yi : list nat) (counts : list nat) (l : nat) : nat :=
   sum_nat (map (fun i => nth i counts 0) (class_rows yi l)).
@@ -65,7 +86,7 @@ Definition corr_cls_forest (crit : N) (x : list (list float)) (y : list float) (
   | None, None => true
   | Some f, Some (et, ec, es) =>
       list_eq2 ctree_eq (cf_trees f) et && flist_eq (cf_classes f) ec && masks_eq (cf_samples f) es &&
-      masks_okb (length x) (N.to_nat n_trees) (cf_samples f) &&
+      masks_okb (length x) (N.to_nat n_trees) (cf_samples f) && oob_sub_cls_okb f x &&
       option_eqb flist_eq (cf_predict FOps f rows) (Some exp_pred) &&
       option_eqb flist_eq (cf_predict_oob FOps f x) exp_oob
   | _, _ => false
@@ -77,7 +98,7 @@ Definition corr_cls_forest_predict (classes : list float) (trees : list (list cn
            (exp_pred : list float) (exp_oob : option (list float)) : bool :=
   let f := mkCF (map (fun ns => (classes, map cnode_of ns, 0)) trees) classes samples in
   forallb (fun tr => wf_treeb (ct_nodes tr)) (cf_trees f) &&
-  masks_okb (length x) (length trees) samples &&
+  masks_okb (length x) (length trees) samples && oob_sub_cls_okb f x &&
   option_eqb flist_eq (cf_predict FOps f rows) (Some exp_pred) &&
   option_eqb flist_eq (cf_predict_oob FOps f x) exp_oob.
 
@@ -98,7 +119,7 @@ Definition corr_reg_forest (x : list (list float)) (y : list float) (n_trees : N
   | None, None => true
   | Some f, Some (et, es) =>
       list_eq2 rtree_eq (rf_trees f) et && masks_eq (rf_samples f) es &&
-      masks_okb (length x) (N.to_nat n_trees) (rf_samples f) &&
+      masks_okb (length x) (N.to_nat n_trees) (rf_samples f) && oob_sub_reg_okb f x &&
       option_eqb flist_eq (rf_predict FOps f rows) (Some exp_pred) &&
       option_eqb flist_eq (rf_predict_oob FOps f x) exp_oob
   | _, _ => false
@@ -108,6 +129,6 @@ Definition corr_reg_forest_predict (trees : list (list rnode)) (samples : option
            (x rows : list (list float)) (exp_pred : list float) (exp_oob : option (list float)) : bool :=
   let f := mkRF (map (fun ns => (map rnode_of ns, 0)) trees) samples in
   forallb (fun tr => wf_treeb (fst tr)) (rf_trees f) &&
-  masks_okb (length x) (length trees) samples &&
+  masks_okb (length x) (length trees) samples && oob_sub_reg_okb f x &&
   option_eqb flist_eq (rf_predict FOps f rows) (Some exp_pred) &&
   option_eqb flist_eq (rf_predict_oob FOps f x) exp_oob.
